@@ -143,6 +143,14 @@ func (s *nestedSpace) Ops(w *World) []Op {
 					}
 				}
 			}
+			// fields of composite (compact-encoded) maps
+			for _, mk := range c.Keys {
+				if sk, ok := mk.(Str); ok && len(sk.S) >= 2 && sk.S[0] == 'f' {
+					var fn int
+					fmt.Sscanf(sk.S, "f%d", &fn)
+					ops = append(ops, Op{K: "mremove", C: c.Serial, Key: 200 + fn}, Op{K: "mset", C: c.Serial, Key: 200 + fn, V: "t"})
+				}
+			}
 		} else {
 			if n < limit {
 				for _, cl := range classes {
